@@ -527,3 +527,5 @@ def main(cmd, argv):
 
 SPECIAL = {}
 SPECIAL_REPLAY = {}
+
+from . import c25  # noqa: E402,F401  (registers the C25 check)
